@@ -13,7 +13,7 @@
            [wlock_ops], and a concrete wrapped history on which every hypothesis holds. *)
 From AB Require Import World.Step Proofs.EvLogic Proofs.Neutral Proofs.MonadInv Proofs.StoreLogic
   Proofs.SameView Proofs.SameView2 Proofs.NoPanic Proofs.Gate Proofs.TwoFactorProofs Proofs.StoreShape
-  Proofs.Footprint Proofs.StepLift2 Proofs.Wrapped Proofs.Wrapped2 Proofs.LockWorld Proofs.LockWorld2.
+  Proofs.Footprint Proofs.MwProofs Proofs.StepLift2 Proofs.Wrapped Proofs.Wrapped2 Proofs.LockWorld Proofs.LockWorld2.
 Open Scope Z_scope.
 
 (* ================================================================================================ *)
@@ -118,4 +118,748 @@ Proof.
     + exists (loaded h). split; reflexivity.
     + exact (PEND (loaded h) eq_refl).
 Qed.
+Section WReadable.
+Hypothesis Bb : q_badbody (e_req E) = false.
+Hypothesis Api : c_api cfg = true -> q_meth (e_req E) <> GET.
+
+(* [totp_validate_exact], [totp_lemma], [sms_lemma] of LockWorld.v: the same proofs, the one use of
+   the empty context replaced by [subject_load_gen] *)
+Lemma totp_validate_exact_gen h r h1 P u0 u1 st :
+  h_cuser h = None -> cpid_ok E h -> keyed (h_st h) ->
+  subject E k_totp_pending (users h) = Some (P, u0) -> totp_check E u0 = (u1, st) ->
+  totp_validate E h = (r, h1) ->
+  r = Ok (u1, false, st) /\ h_cuser h1 = None /\
+  ((users h1 = users h /\ (u1 = u0 \/ (c_onetime cfg = true /\ st = Some TSuccess))) \/
+   (users h1 = uput P u1 (users h) /\ st = Some TSuccess)).
+Proof.
+  intros Hc Hp Ky Sub TC Eq. unfold totp_validate in Eq.
+  destruct (subject_load_gen k_totp_pending h Hc Hp) as (h0 & U0 & Ex).
+  unfold bind at 1 in Eq. rewrite Ex, Sub in Eq. cbn beta iota in Eq.
+  assert (Us : users h0 = users h) by (unfold uc in U0; inversion U0 as [[A1 A2]]; exact A1).
+  assert (C0 : h_cuser h0 = None) by (unfold uc in U0; inversion U0 as [[A1 A2]]; congruence).
+  assert (Pk : u_pid u0 = P) by (apply Ky; apply subject_lookup in Sub; exact Sub).
+  unfold totp_check in TC. cbv zeta in TC.
+  destruct (bempty (u_totp u0)).
+  { inversion TC; subst. inversion Eq; subst. auto 6. }
+  unfold bind at 1 in Eq. rewrite (read_values_ok E h0 Bb Api) in Eq. cbv zeta in Eq.
+  destruct (negb (bempty (aget f_recovery_code vals))).
+  { destruct (use_recovery_code E (decode_codes (u_recovery u0)) (aget f_recovery_code vals)) as [rest|].
+    - inversion TC; subst u1 st.
+      unfold bind at 1, log at 1, modify at 1 in Eq. unfold store_back in Eq.
+      unfold bind at 1, ret at 1 in Eq. unfold bind at 1 in Eq. rewrite (st_save_nofault E nofaults) in Eq.
+      inversion Eq; subst r h1. split; [reflexivity|]. split; [exact C0|]. right. split; [|reflexivity].
+      unfold users at 1. cbn [h_st s_users set]. simpl. fold (users h0). rewrite Us, Pk. reflexivity.
+    - inversion TC; subst. inversion Eq; subst. auto 6. }
+  destruct (c_onetime cfg).
+  - destruct (beqb (u_totp_last u0) (trim_space (aget f_code vals))).
+    { inversion TC; subst. inversion Eq; subst. auto 6. }
+    destruct (negb (totp_ok E (u_totp u0) (aget f_code vals))).
+    { inversion TC; subst. inversion Eq; subst. auto 6. }
+    inversion TC; subst u1 st. unfold store_back in Eq. unfold bind at 1, ret at 1 in Eq.
+    inversion Eq; subst. auto 7.
+  - destruct (negb (totp_ok E (u_totp u0) (aget f_code vals))); inversion TC; subst; inversion Eq; subst; auto 6.
+Qed.
+
+Theorem totp_lemma_gen h r h' P u0 u1 st :
+  totp_validate_post E h = (r, h') -> h_cuser h = None -> cpid_ok E h -> keyed (h_st h) ->
+  subject E k_totp_pending (users h) = Some (P, u0) -> totp_check E u0 = (u1, st) ->
+  match st with
+  | None => users h' = users h
+  | Some TSuccess => applied E P u1 (ok_ops E (blocked E u0)) h h'
+  | Some _ => r = Ok tt /\ applied E P u0 [FAIL] h h'
+  end.
+Proof.
+  intros Eq Hc Hp Ky Sub TC. unfold totp_validate_post in Eq.
+  apply bind_inv in Eq as [(x & h1 & E1 & E2)|[(e & E1 & ->)|(E1 & ->)]];
+    destruct (totp_validate_exact_gen _ _ _ _ _ _ _ Hc Hp Ky Sub TC E1) as (R & C1 & St); try discriminate R.
+  inversion R; subst x. cbn beta iota in E2.
+  destruct (totp_check_facts _ _ _ _ TC) as (Pk1 & Lt & Bl & Same).
+  assert (Lk : ulookup P (users h) = Some u0) by (apply subject_lookup in Sub; exact Sub).
+  assert (Pk : u_pid u0 = P) by (apply Ky; exact Lk).
+  assert (FAILS : st <> Some TSuccess ->
+            (set_cuser u1 ;;;
+             handled <- fire E EvAfterAuthFail false ;;
+             if handled then ret tt else log [u_pid u1] ;;; respond E (bs "totp2fa_validate") [(bs "errors", DOther)]) h1 = (r, h') ->
+            r = Ok tt /\ applied E P u0 [FAIL] h h').
+  { intros Ns F. rewrite (Same Ns) in *. clear Same.
+    destruct St as [(Us & _)|(_ & Hs)]; [|contradiction].
+    unfold bind at 1, set_cuser at 1, modify at 1 in F.
+    apply (fail_part E nofaults ND HM) with (P := P) (w := u0) (L := users h) in F as (R2 & I).
+    - split; [exact R2|]. apply at_applied. exact I.
+    - apply log_respond_pres.
+    - intros h0 r0 h0'. apply (log_respond_res E nofaults).
+    - apply at_intro; [exact Pk|reflexivity| |].
+      + change (ulookup P (users h1) = Some u0). rewrite Us. exact Lk.
+      + intros p _. change (ulookup p (users h1) = ulookup p (users h)). rewrite Us. reflexivity. }
+  destruct st as [[| |]|].
+  - (* accepted *)
+    rewrite <- Bl. apply at_applied.
+    assert (I : exists h2, at_ P u1 (users h) h2 /\
+              (handled <- fire E EvBeforeAuth false ;;
+               if handled then ret tt else
+               put_session k_uid (u_pid u1) ;;; put_session k_twofactor (bs "totp") ;;;
+               del_session k_halfauth ;;; del_session k_totp_pending ;;; del_session k_totp_secret ;;;
+               log [u_pid u1] ;;;
+               handled <- fire E EvAfterAuth false ;;
+               if handled then ret tt else redirect E (ro_follow_redir (p_login_ok_of (e_cfg E)))) h2 = (r, h')).
+    { destruct (c_onetime cfg) eqn:OT; unfold bind at 1 in E2;
+        [rewrite (st_save_nofault E nofaults) in E2|unfold ret at 1 in E2];
+        unfold bind at 1, set_cuser at 1, modify at 1 in E2; (eexists; split; [|exact E2]).
+      - destruct St as [(Us & _)|(Us & _)].
+        + apply at_after_save with (h := h); [congruence|reflexivity| |reflexivity].
+          change (uput (u_pid u1) u1 (users h1) = uput P u1 (users h)). rewrite Us. congruence.
+        + apply at_after_save with (h := h1); [congruence|reflexivity| |].
+          * change (uput (u_pid u1) u1 (users h1) = uput P u1 (users h1)). congruence.
+          * intros p Np. rewrite Us. apply ulookup_uput_neq. exact Np.
+      - destruct St as [(Us & [->|(OT' & _)])|(Us & _)]; [|congruence|].
+        + apply at_intro; [exact Pk|reflexivity| |].
+          * change (ulookup P (users h1) = Some u0). rewrite Us. exact Lk.
+          * intros p _. change (ulookup p (users h1) = ulookup p (users h)). rewrite Us. reflexivity.
+        + apply at_after_save with (h := h); [congruence|reflexivity|exact Us|reflexivity]. }
+    destruct I as (h2 & I & F).
+    apply (before_part E nofaults ND HM) with (1 := I) in F as [(B1 & _ & I1)|(B1 & h3 & I1 & F)]; rewrite B1; cbn [ok_ops].
+    + rewrite lrunu_one. exact I1.
+    + do 6 skip_mod F. rewrite <- (two_ops E).
+      eapply (after_part E nofaults ND HM); [| |exact F]; [apply pres_redirect; exact _|].
+      eapply at_mod; [exact I1|reflexivity].
+  - apply FAILS; [discriminate|exact E2].
+  - apply FAILS; [discriminate|exact E2].
+  - (* no TOTP enrolled *)
+    destruct St as [(Us & _)|(_ & Hs)]; [|discriminate Hs].
+    pose proof (log_respond_pres _ _ _ _ _ _ _ E2) as U. unfold uc in U. inversion U as [[A1 A2]].
+    unfold users in *. congruence.
+Qed.
+
+Theorem sms_lemma_gen h r h' P u0 :
+  sms_validator_post E SPValidate h = (r, h') -> h_cuser h = None -> cpid_ok E h -> keyed (h_st h) ->
+  subject E k_sms_pending (users h) = Some (P, u0) ->
+  match sms_check E u0 with
+  | None => users h' = users h
+  | Some (true, u1) => applied E P u1 (ok_ops E (blocked E u0)) h h'
+  | Some (false, _) => r = Ok tt /\ applied E P u0 [FAIL] h h'
+  end.
+Proof.
+  intros Eq Hc Hp Ky Sub. unfold sms_validator_post in Eq.
+  destruct (subject_load_gen k_sms_pending h Hc Hp) as (h0 & U0 & Ex).
+  unfold bind at 1 in Eq. rewrite Ex, Sub in Eq. cbn beta iota in Eq.
+  assert (Us : users h0 = users h) by (unfold uc in U0; inversion U0 as [[A1 A2]]; exact A1).
+  assert (Lk : ulookup P (users h) = Some u0) by (apply subject_lookup in Sub; exact Sub).
+  assert (Pk : u_pid u0 = P) by (apply Ky; exact Lk).
+  unfold bind at 1 in Eq. rewrite (read_values_ok E h0 Bb Api) in Eq. cbv zeta in Eq.
+  destruct (sms_check E u0) as [[b u1]|] eqn:SC.
+  2: { (* nothing checked *)
+    unfold sms_check in SC. cbv zeta in SC.
+    destruct (bempty (aget f_recovery_code vals) && bempty (aget f_code vals)).
+    - apply (pres_sms_send_code E SPValidate u0) in Eq. unfold uc in Eq. inversion Eq as [[A1 A2]].
+      unfold users in *. congruence.
+    - destruct (negb (bempty (aget f_recovery_code vals))).
+      + destruct (use_recovery_code E _ _); discriminate SC.
+      + destruct (bempty (aget k_sms_secret (e_sess E))) eqn:Bc; [|discriminate SC].
+        unfold sms_validate_code in Eq. cbn [bempty negb] in Eq. rewrite Bc in Eq.
+        unfold bind at 1, fail at 1 in Eq. inversion Eq; subst. exact Us. }
+  destruct (sms_check_facts _ _ _ _ SC) as (Pk1 & Lt & Bl & Same).
+  unfold sms_check in SC. cbv zeta in SC.
+  destruct (bempty (aget f_recovery_code vals) && bempty (aget f_code vals)); [discriminate SC|].
+  destruct (negb (bempty (aget f_recovery_code vals))) eqn:Nrc.
+  - (* a recovery code *)
+    unfold sms_validate_code in Eq. rewrite Nrc in Eq.
+    destruct (use_recovery_code E (decode_codes (u_recovery u0)) (aget f_recovery_code vals)) as [rest|].
+    + inversion SC; subst b u1. clear SC.
+      match type of Eq with bind ?m _ ?hh = _ =>
+        assert (V : exists hS, m hh = (Ok (true, u0 <| u_recovery := encode_codes rest |>), hS) /\
+                    users hS = uput (u_pid u0) (u0 <| u_recovery := encode_codes rest |>) (users hh))
+      end.
+      { unfold bind at 1, log at 1, modify at 1. unfold store_back. unfold bind at 1, ret at 1.
+        unfold bind at 1. rewrite (st_save_nofault E nofaults). eexists. split; reflexivity. }
+      destruct V as (hS & V & UsS). unfold bind at 1 in Eq. rewrite V in Eq. cbn beta iota in Eq.
+      rewrite <- Bl. eapply (sms_ok_tail E nofaults ND HM); [|exact Eq].
+      apply at_after_save with (h := h); [exact Pk|reflexivity| |reflexivity].
+      change (users hS = uput P (u0 <| u_recovery := encode_codes rest |>) (users h)).
+      rewrite UsS, Us, Pk. reflexivity.
+    + inversion SC; subst b u1. clear SC.
+      unfold bind at 1, ret at 1 in Eq. cbn beta iota in Eq.
+      eapply (sms_fail_tail E nofaults ND HM); [exact Us|exact Lk|exact Pk|exact Eq].
+  - (* the texted code *)
+    unfold sms_validate_code in Eq. cbn [bempty negb] in Eq.
+    destruct (bempty (aget k_sms_secret (e_sess E))); [discriminate SC|].
+    injection SC as Hb Hu. subst u1.
+    unfold bind at 1, ret at 1 in Eq. rewrite Hb in Eq. destruct b; cbn beta iota in Eq.
+    + eapply (sms_ok_tail E nofaults ND HM); [|exact Eq].
+      apply at_intro; [exact Pk|reflexivity| |].
+      * change (ulookup P (users h0) = Some u0). rewrite Us. exact Lk.
+      * intros p _. change (ulookup p (users h0) = ulookup p (users h)). rewrite Us. reflexivity.
+    + eapply (sms_fail_tail E nofaults ND HM); [exact Us|exact Lk|exact Pk|exact Eq].
+Qed.
+End WReadable.
+(* ---- the targets of LockWorld2.v, from such a start state ---------------------------------------- *)
+Lemma totp_target_gen h r h' :
+  totp_validate_post E h = (r, h') -> h_cuser h = None -> cpid_ok E h -> keyed (h_st h) ->
+  target_spec E (totp_tgt E (users h)) h h'.
+Proof.
+  intros Eq Hc Hp Ky. unfold totp_tgt.
+  destruct (subject_load_gen k_totp_pending h Hc Hp) as (h0 & U0 & Ex).
+  pose proof (uc_users _ _ U0) as Us0.
+  destruct (readable E) eqn:Rd.
+  - destruct (readable_true E Rd) as (Bb & Api).
+    destruct (subject E k_totp_pending (users h)) as [[P u]|] eqn:Sub.
+    + unfold totp_verdict. destruct (totp_check E u) as [u1 st] eqn:TC. cbn [snd].
+      pose proof (totp_lemma_gen Bb Api _ _ _ _ _ _ _ Eq Hc Hp Ky Sub TC) as T.
+      destruct (totp_check_facts _ _ _ _ TC) as (_ & Lt & _ & _).
+      pose proof (subject_lookup _ _ _ _ _ Sub) as Lu.
+      destruct st as [[| |]|]; cbn [verdict_ops].
+      * eapply tspec_applied; [exact Lu|exact Lt|exact T].
+      * eapply tspec_applied; [exact Lu|reflexivity|apply T].
+      * eapply tspec_applied; [exact Lu|reflexivity|apply T].
+      * eapply tspec_same; eassumption.
+    + cbn [target_spec]. unfold totp_validate_post in Eq.
+      apply bind_inv in Eq as [(x & h1 & E1 & E2)|[(e & E1 & ->)|(E1 & ->)]];
+        unfold totp_validate in E1; unfold bind at 1 in E1; rewrite Ex in E1; inversion E1; subst.
+      exact Us0.
+  - cbn [target_spec]. unfold totp_validate_post in Eq.
+    apply bind_inv in Eq as [(x & h1 & E1 & E2)|[(e & E1 & ->)|(E1 & ->)]];
+      unfold totp_validate in E1; unfold bind at 1 in E1; rewrite Ex in E1;
+      destruct (subject E k_totp_pending (users h)) as [[P u]|]; try (inversion E1; subst; exact Us0);
+      cbn beta iota in E1;
+      (destruct (bempty (u_totp u)); [|rewrite (unreadable_bind E _ h0 Rd) in E1]); inversion E1; subst; try exact Us0.
+    cbn beta iota in E2. eapply left_by_pres; [apply log_respond_pres|exact Us0|exact E2].
+Qed.
+
+Lemma sms_target_gen h r h' :
+  sms_validator_post E SPValidate h = (r, h') -> h_cuser h = None -> cpid_ok E h -> keyed (h_st h) ->
+  target_spec E (sms_tgt E (users h)) h h'.
+Proof.
+  intros Eq Hc Hp Ky. unfold sms_tgt.
+  destruct (subject_load_gen k_sms_pending h Hc Hp) as (h0 & U0 & Ex).
+  pose proof (uc_users _ _ U0) as Us0.
+  destruct (readable E) eqn:Rd.
+  - destruct (readable_true E Rd) as (Bb & Api).
+    destruct (subject E k_sms_pending (users h)) as [[P u]|] eqn:Sub.
+    + unfold sms_verdict.
+      pose proof (sms_lemma_gen Bb Api _ _ _ _ _ Eq Hc Hp Ky Sub) as T.
+      pose proof (subject_lookup _ _ _ _ _ Sub) as Lu.
+      destruct (sms_check E u) as [[b u1]|] eqn:SC.
+      * destruct (sms_check_facts _ _ _ _ SC) as (_ & Lt & _ & _). destruct b; cbn [verdict_ops].
+        -- eapply tspec_applied; [exact Lu|exact Lt|exact T].
+        -- eapply tspec_applied; [exact Lu|reflexivity|apply T].
+      * eapply tspec_same; eassumption.
+    + cbn [target_spec]. unfold sms_validator_post in Eq. unfold bind at 1 in Eq. rewrite Ex in Eq.
+      inversion Eq; subst. exact Us0.
+  - cbn [target_spec]. unfold sms_validator_post in Eq. unfold bind at 1 in Eq. rewrite Ex in Eq.
+    destruct (subject E k_sms_pending (users h)) as [[P u]|]; [|inversion Eq; subst; exact Us0].
+    cbn beta iota in Eq. rewrite (unreadable_bind E _ h0 Rd) in Eq. inversion Eq; subst. exact Us0.
+Qed.
+
+(* what the wrapper leaves: no cached pid, or the cached pid of a half-authenticated view *)
+Definition wctx (h : hst) : Prop :=
+  h_cpid h = None \/ (h_cpid h = Some (aget k_uid (e_sess E)) /\ ahas k_halfauth (e_sess E) = true).
+
+Lemma wctx_cpid_ok h : wctx h -> cpid_ok E h.
+Proof. unfold cpid_ok. intros [->|(-> & _)]; reflexivity. Qed.
+
+(* the two SMS settings posts sit behind the full-auth gate: a half-authenticated view is refused
+   before the validator runs, and [mw_user] says so *)
+Lemma behind_halfauth_users inner h r h' :
+  ahas k_halfauth (e_sess E) = true -> behind E true inner h = (r, h') -> users h' = users h.
+Proof.
+  intros Hh Eq. rewrite (behind_halfauth E inner h Hh) in Eq.
+  assert (G : rl (Rk h_st) (mw_fail E true (c_unauthed (e_cfg E)) ;;; ret tt)).
+  { apply rl_bind; [exact _|apply mw_fail_keeps_st|intros; apply rl_ret; exact _]. }
+  unfold users. rewrite (G _ _ _ Eq). reflexivity.
+Qed.
+
+Lemma sms_set_target_gen p h r h' :
+  p <> SPValidate -> filed (h_st h) -> h_cuser h = None -> wctx h ->
+  chandler E (CSms p) h = (r, h') -> triples_by E (sms_set_tgt E p (users h)) (users h) (users h').
+Proof.
+  intros Np Fl Hc [Hp|(Hp & Hh)] Eq.
+  - exact (sms_set_target E nofaults ND HM p h r h' Np Fl Hc Hp Eq).
+  - assert (T : sms_set_tgt E p (users h) = None).
+    { unfold sms_set_tgt, mw_user. rewrite Hh. reflexivity. }
+    rewrite T. apply triples_of_eq.
+    destruct p; [| |exfalso; apply Np; reflexivity]; cbn [chandler] in Eq.
+    + unfold verified in Eq. exact (behind_halfauth_users _ _ _ _ Hh Eq).
+    + exact (behind_halfauth_users _ _ _ _ Hh Eq).
+Qed.
+
+Lemma req_target_gen k h r h' :
+  filed (h_st h) -> h_cuser h = None -> wctx h ->
+  chandler E k h = (r, h') -> triples_by E (req_tgt E k (users h)) (users h) (users h').
+Proof.
+  intros Fl Hc Hw Eq. pose proof (filed_keyed _ Fl) as Ky. pose proof (wctx_cpid_ok _ Hw) as Hp.
+  destruct k as [| | |p| |prov]; cbn [req_tgt].
+  - apply triples_of_target. exact (login_target E nofaults ND HM h r h' Eq Ky).
+  - apply triples_of_target. exact (otp_target E nofaults ND HM h r h' Eq Ky).
+  - apply triples_of_target. exact (totp_target_gen h r h' Eq Hc Hp Ky).
+  - destruct p.
+    + apply sms_set_target_gen with (r := r); auto; discriminate.
+    + apply sms_set_target_gen with (r := r); auto; discriminate.
+    + apply triples_of_target. exact (sms_target_gen h r h' Eq Hc Hp Ky).
+  - apply triples_of_target. exact (recover_target E nofaults ND HM h r h' Eq Fl).
+  - apply triples_of_target. exact (oauth_target E nofaults ND HM prov h r h' Eq Ky).
+Qed.
+
+(* [serve_triples] of LockWorld2.v from such a start state *)
+Lemma serve_triples_gen h r h' :
+  filed (h_st h) -> h_cuser h = None -> wctx h -> serve E h = (r, h') ->
+  filed (h_st h') /\ triples_by E (serve_tgt E (users h)) (users h) (users h').
+Proof.
+  intros Fl Hc Hw Eq. split.
+  { exact (proj1 (serve_keeps_shape E h r h' Fl (ctx_stored_none h Hc) Eq)). }
+  unfold serve_tgt. destruct (ckind_of (e_cfg E) (e_req E)) as [k|] eqn:CK.
+  - unfold serve in Eq. rewrite (route_cred E k CK) in Eq.
+    apply weh_users in Eq as (r1 & h1 & F & Us). rewrite Us.
+    exact (req_target_gen k h r1 h1 Fl Hc Hw F).
+  - destruct (serve_keeps_triples_lemma E CK h r h' Fl (ctx_stored_none h Hc) Eq) as (_ & K).
+    exact (triples_of_keeps E _ _ K).
+Qed.
 End WLW.
+
+(* ================================================================================================ *)
+(* Part C: [serve_top] from the start of a request                                                  *)
+(* ================================================================================================ *)
+(* the session view the wrapper hands to the route: the session as it arrived, or - when the wrapper
+   logged the cookie's owner in - its half-authenticated overlay *)
+Definition wrap_view (E : env) (h : hst) : amap :=
+  match h_cpid (snd (remember_mw E h)) with
+  | Some pid => half_view pid (e_sess E)
+  | None => e_sess E
+  end.
+
+(* the environment the route's handler runs in, under the router as mounted *)
+Definition wenv (E : env) (st : storage) (O : oracle) : env :=
+  if wrapped_route E then with_sess E (wrap_view E (init_hst st O)) else E.
+
+Lemma wenv_plain E st O : wrapped_route E = false -> wenv E st O = E.
+Proof. unfold wenv. intros ->. reflexivity. Qed.
+
+(* one request at the level of [serve_top]: the route's target evaluated on the view after the
+   wrapper and on the user table the request started from (the wrapper does not touch it) *)
+Lemma serve_top_triples E st O r h' :
+  o_faults (e_O E) = [] -> NoDup (c_mods (e_cfg E)) -> has_mod (e_cfg E) MLock = true -> filed st ->
+  serve_top E (init_hst st O) = (r, h') ->
+  filed (h_st h') /\ triples_by E (serve_tgt (wenv E st O) (s_users st)) (s_users st) (users h').
+Proof.
+  intros NF ND HM Fl Eq. unfold wenv.
+  apply serve_top_inv in Eq as [(W & Eq)|(W & h1 & s2 & RM & RV & Eq)]; rewrite W.
+  - exact (serve_triples E (init_hst st O) r h' NF ND HM Fl eq_refl eq_refl Eq).
+  - assert (S2 : wrap_view E (init_hst st O) = s2).
+    { unfold wrap_view. rewrite RM. cbn [snd]. apply remembered_view_inv in RV as [_ RV].
+      inversion RV as [S2]. unfold half_view. reflexivity. }
+    rewrite S2.
+    destruct (wrapper_result E st O h1 s2 RM RV) as (Ku & Kc & _ & Hd).
+    assert (Fl1 : filed (h_st h1)) by (unfold filed; rewrite Ku; exact Fl).
+    assert (Hw : wctx (with_sess E s2) h1).
+    { destruct Hd as [(Hp & _)|(pid & Hp & -> & _)]; [left; exact Hp|right].
+      cbn [with_sess e_sess]. rewrite aget_uid_overlay. split; [exact Hp|apply ahas_halfauth_view]. }
+    destruct (serve_triples_gen (with_sess E s2) NF ND HM h1 r h' Fl1 Kc Hw Eq) as (F' & T).
+    split; [exact F'|]. unfold users in T at 1 2. rewrite Ku in T. exact T.
+Qed.
+
+(* ---- the wrapper, purely ------------------------------------------------------------------------ *)
+(* whom remember.Middleware logs in, without backend faults: nobody when the session names somebody;
+   otherwise the account named by a well-formed remember cookie whose token storage still holds *)
+Definition wrap_pid (E : env) (st : storage) : option bytes :=
+  if bempty (aget k_uid (e_sess E)) then
+    match alookup k_rm (e_cook E) with
+    | None => None
+    | Some cookie =>
+        match b64url_dec cookie with
+        | None => None
+        | Some raw =>
+            match rm_parse_pid raw with
+            | None => None
+            | Some pid =>
+                if bmem (b64std_enc (sha (e_C E) raw)) (rmlookup pid (s_rm st)) then Some pid else None
+            end
+        end
+    end
+  else None.
+
+Lemma remember_mw_cpid_exact E h :
+  o_faults (e_O E) = [] -> h_cpid h = None -> h_cpid (snd (remember_mw E h)) = wrap_pid E (h_st h).
+Proof.
+  intros NF Hp. unfold remember_mw, wrap_pid. unfold bind at 1. rewrite (current_user_id_nocache _ _ Hp).
+  destruct (bempty (aget k_uid (e_sess E))); [|exact Hp].
+  unfold try at 1, remember_authenticate.
+  destruct (alookup k_rm (e_cook E)) as [cookie|]; [|exact Hp].
+  destruct (b64url_dec cookie) as [raw|]; [|exact Hp].
+  destruct (rm_parse_pid raw) as [pid|]; [|exact Hp].
+  cbv zeta. unfold try at 1, st_use_rm. rewrite (backend_nofault E NF). cbn [h_st set].
+  match goal with |- context [bmem ?t ?l] => destruct (bmem t l) end; [|exact Hp].
+  unfold bind at 1, rm_generate at 1. unfold bind at 1, fresh at 1. cbn [h_fresh set].
+  destruct (take_chunk 32 (h_fresh h)) as [[c rest]|]; unfold ret at 1; cbn beta iota zeta;
+    unfold bind at 1, try at 1, st_add_rm; rewrite (backend_nofault E NF); reflexivity.
+Qed.
+
+Lemma wrap_view_exact E st O :
+  o_faults (e_O E) = [] ->
+  wrap_view E (init_hst st O) =
+  match wrap_pid E st with Some pid => half_view pid (e_sess E) | None => e_sess E end.
+Proof. intros NF. unfold wrap_view. rewrite (remember_mw_cpid_exact E (init_hst st O) NF eq_refl). reflexivity. Qed.
+
+(* the wrapper is the identity on the state when the request carries no remember cookie or the
+   session already has an identity: the wrapped router is the plain one *)
+Definition wrapper_idle (E : env) : Prop :=
+  alookup k_rm (e_cook E) = None \/ bempty (aget k_uid (e_sess E)) = false.
+
+Lemma remember_mw_idle E h : h_cpid h = None -> wrapper_idle E -> remember_mw E h = (Ok tt, h).
+Proof. intros Hp [Hk|Hb]; [apply remember_mw_nocookie|apply remember_mw_hasid]; assumption. Qed.
+
+Lemma serve_top_idle E h : h_cpid h = None -> wrapper_idle E -> serve_top E h = serve E h.
+Proof.
+  intros Hp Hi. destruct (wrapped_route E) eqn:W; [|rewrite (serve_top_plain _ W); reflexivity].
+  rewrite (serve_top_wrapped _ W). unfold bind at 1. rewrite (remember_mw_idle E h Hp Hi).
+  unfold bind. rewrite (remembered_view_nocache _ _ Hp). rewrite with_sess_same. reflexivity.
+Qed.
+
+Lemma wenv_idle E st O : wrapper_idle E -> wenv E st O = E.
+Proof.
+  intros Hi. unfold wenv. destruct (wrapped_route E); [|reflexivity].
+  unfold wrap_view. rewrite (remember_mw_idle E (init_hst st O) eq_refl Hi). cbn [snd init_hst h_cpid].
+  apply with_sess_same.
+Qed.
+
+(* ================================================================================================ *)
+(* Part D: one [wstep], histories of [wrun]                                                          *)
+(* ================================================================================================ *)
+Section WStep.
+Variable C : crypto.
+Variable cfg : config.
+
+(* the environment a request's handler runs in under [wstep]: the jars' view, overlaid by the wrapper
+   on the module routes of a wrapped deployment *)
+Definition wenv_of (w : world) (req : request) (O : oracle) : env := wenv (env_of C cfg w req O) (w_st w) O.
+
+(* the machine operations action [a], taken in world [w] under oracle [O] by the router as mounted,
+   applies to account P *)
+Definition wlock_ops (w : world) (a : action) (O : oracle) (P : bytes) : list lop :=
+  match a with
+  | AReq req => t_ops (serve_tgt (wenv_of w req O) (s_users (w_st w))) P
+  | _ => lock_ops C cfg w a O P
+  end.
+
+Lemma wstep_req_st w req O :
+  w_st (fst (wstep C cfg w (AReq req) O)) =
+  h_st (snd (serve_top (env_of C cfg w req O) (init_hst (w_st w) O))).
+Proof.
+  unfold wstep, env_of. cbv zeta. destruct (serve_top _ _) as [r0 h]. cbn [fst snd]. destruct (h_out h); reflexivity.
+Qed.
+
+Theorem wstep_applies_machine_lemma w a O :
+  NoDup (c_mods cfg) -> has_mod cfg MLock = true -> o_faults O = [] -> filed (w_st w) -> seed_keeps w a ->
+  forall P u, ulookup P (s_users (w_st w)) = Some u ->
+  exists u', ulookup P (s_users (w_st (fst (wstep C cfg w a O)))) = Some u' /\
+             ltriple u' = lrun (lc_of cfg) (ltriple u) (wlock_ops w a O P).
+Proof.
+  intros ND HM NF Fl Sk P u Lu.
+  destruct a as [req|pid|pid|pid pw|pid|su rm|b k v|ck b j];
+    try exact (step_applies_machine_lemma C cfg w _ O ND HM NF Fl Sk P u Lu).
+  rewrite wstep_req_st.
+  destruct (serve_top (env_of C cfg w req O) (init_hst (w_st w) O)) as [r h'] eqn:Sv. cbn [snd].
+  destruct (serve_top_triples (env_of C cfg w req O) (w_st w) O r h' NF ND HM Fl Sv) as (_ & T).
+  exact (T P u Lu).
+Qed.
+
+Theorem wstep_filed_lemma w a O : filed (w_st w) -> filed (w_st (fst (wstep C cfg w a O))).
+Proof.
+  intros Fl. destruct a as [req|pid|pid|pid pw|pid|su rm|b k v|ck b j];
+    try exact (step_filed_lemma C cfg w _ O Fl).
+  rewrite wstep_req_st. destruct (serve_top _ _) as [r h'] eqn:Sv. cbn [snd].
+  exact (serve_top_keeps_filed _ (init_hst (w_st w) O) _ _ Fl Sv).
+Qed.
+
+(* ---- histories -------------------------------------------------------------------------------- *)
+Fixpoint wrun_ops (w : world) (l : list (action * oracle)) (P : bytes) : list (list lop) :=
+  match l with
+  | [] => []
+  | (a, orc) :: r => wlock_ops w a orc P :: wrun_ops (fst (wstep C cfg w a orc)) r P
+  end.
+
+Fixpoint wseeds_keep (w : world) (l : list (action * oracle)) : Prop :=
+  match l with
+  | [] => True
+  | (a, orc) :: r => seed_keeps w a /\ wseeds_keep (fst (wstep C cfg w a orc)) r
+  end.
+
+Lemma wrun_cons w a O l : fst (wrun C cfg w ((a, O) :: l)) = fst (wrun C cfg (fst (wstep C cfg w a O)) l).
+Proof.
+  cbn [wrun]. destruct (wstep C cfg w a O) as [w1 o1]. cbn [fst]. destruct (wrun C cfg w1 l) as [w2 os]. reflexivity.
+Qed.
+
+Lemma wrun_filed_lemma l : forall w, filed (w_st w) -> filed (w_st (fst (wrun C cfg w l))).
+Proof.
+  induction l as [|[a O] l IH]; intros w Fl; [exact Fl|].
+  rewrite wrun_cons. apply IH. apply wstep_filed_lemma. exact Fl.
+Qed.
+
+Theorem wrun_applies_machine_lemma l : forall w,
+  NoDup (c_mods cfg) -> has_mod cfg MLock = true -> Forall (fun ao => o_faults (snd ao) = []) l ->
+  filed (w_st w) -> wseeds_keep w l ->
+  forall P u, ulookup P (s_users (w_st w)) = Some u ->
+  exists u', ulookup P (s_users (w_st (fst (wrun C cfg w l)))) = Some u' /\
+             ltriple u' = lrun (lc_of cfg) (ltriple u) (concat (wrun_ops w l P)).
+Proof.
+  induction l as [|[a O] l IH]; intros w ND HM NF Fl Sk P u Lu.
+  - exists u. split; [exact Lu|reflexivity].
+  - inversion NF as [|? ? N1 N2]; subst. cbn [snd] in N1. destruct Sk as (S1 & S2).
+    destruct (wstep_applies_machine_lemma w a O ND HM N1 Fl S1 P u Lu) as (u1 & L1 & T1).
+    destruct (IH _ ND HM N2 (wstep_filed_lemma w a O Fl) S2 P u1 L1) as (u2 & L2 & T2).
+    exists u2. rewrite wrun_cons. split; [exact L2|].
+    cbn [wrun_ops concat]. rewrite T2, T1. unfold lrun. rewrite fold_left_app. reflexivity.
+Qed.
+
+(* ---- readings of [wlock_ops] ------------------------------------------------------------------- *)
+Lemma wlock_ops_request_lemma w req O P :
+  wlock_ops w (AReq req) O P =
+  match ckind_of cfg req with
+  | Some k =>
+      match req_tgt (wenv_of w req O) k (s_users (w_st w)) with
+      | Some (P0, ops) => if beqb P P0 then ops else []
+      | None => []
+      end
+  | None => []
+  end.
+Proof.
+  unfold wlock_ops, serve_tgt, t_ops.
+  assert (Ec : e_cfg (wenv_of w req O) = cfg /\ e_req (wenv_of w req O) = req).
+  { unfold wenv_of, wenv. destruct (wrapped_route _); split; reflexivity. }
+  destruct Ec as (-> & ->). destruct (ckind_of cfg req); reflexivity.
+Qed.
+
+(* the view the handler sees, purely (no backend faults) *)
+Lemma wenv_of_exact w req O :
+  o_faults O = [] ->
+  let E := env_of C cfg w req O in
+  wenv_of w req O =
+  if wrapped_route E then
+    with_sess E (match wrap_pid E (w_st w) with Some pid => half_view pid (e_sess E) | None => e_sess E end)
+  else E.
+Proof.
+  intros NF E. unfold wenv_of, wenv. fold E. destruct (wrapped_route E); [|reflexivity].
+  rewrite (wrap_view_exact E (w_st w) O NF). reflexivity.
+Qed.
+
+(* 3. without the global wrapper, on an application route, without a remember cookie and with a
+   session that already names somebody, [wlock_ops] is [lock_ops] (and [wstep] is [step]) *)
+Lemma wlock_ops_of_env w req O P :
+  wenv_of w req O = env_of C cfg w req O -> wlock_ops w (AReq req) O P = lock_ops C cfg w (AReq req) O P.
+Proof. intros H. unfold wlock_ops, lock_ops. rewrite H. reflexivity. Qed.
+
+Theorem wlock_ops_unwrapped_lemma w a O P :
+  c_wrap_remember cfg = false -> wlock_ops w a O P = lock_ops C cfg w a O P.
+Proof.
+  intros H. destruct a as [req| | | | | | |]; try reflexivity.
+  apply wlock_ops_of_env. apply wenv_plain. unfold wrapped_route. cbn [env_of e_cfg]. rewrite H. reflexivity.
+Qed.
+
+Lemma wlock_ops_app_lemma w req O P full tf fr l c r e :
+  q_route req = RApp full tf fr l c r e -> wlock_ops w (AReq req) O P = lock_ops C cfg w (AReq req) O P.
+Proof.
+  intros H. apply wlock_ops_of_env. apply wenv_plain. unfold wrapped_route. cbn [env_of e_req]. rewrite H.
+  cbn [is_app negb]. apply Bool.andb_false_r.
+Qed.
+
+Lemma wlock_ops_idle_lemma w req O P :
+  wrapper_idle (env_of C cfg w req O) ->
+  wlock_ops w (AReq req) O P = lock_ops C cfg w (AReq req) O P /\
+  wstep C cfg w (AReq req) O = step C cfg w (AReq req) O.
+Proof.
+  intros Hi. split.
+  - apply wlock_ops_of_env. apply wenv_idle. exact Hi.
+  - unfold wstep, step. cbv zeta. fold (env_of C cfg w req O).
+    rewrite (serve_top_idle (env_of C cfg w req O) (init_hst (w_st w) O) eq_refl Hi). reflexivity.
+Qed.
+
+(* [wlock_ops] names at most one account *)
+Lemma wlock_ops_one_account_lemma w req O P P' :
+  wlock_ops w (AReq req) O P <> [] -> wlock_ops w (AReq req) O P' <> [] -> P = P'.
+Proof.
+  rewrite !wlock_ops_request_lemma. destruct (ckind_of cfg req) as [k|]; [|intros H; contradiction H; reflexivity].
+  destruct (req_tgt (wenv_of w req O) k (s_users (w_st w))) as [[P0 ops]|]; [|intros H; contradiction H; reflexivity].
+  destruct (beqb P P0) eqn:E1; [|intros H; contradiction H; reflexivity].
+  destruct (beqb P' P0) eqn:E2; [|intros _ H; contradiction H; reflexivity].
+  apply beqb_eq in E1. apply beqb_eq in E2. congruence.
+Qed.
+
+(* the routes whose target does not look at the session identity: password login, one-time password
+   login, recover end, OAuth2 callback - there the wrapper changes nothing for the lock machine *)
+Definition sess_free (k : ckind) : bool := match k with CTotp | CSms _ => false | _ => true end.
+
+Lemma req_tgt_view E pid k us :
+  sess_free k = true -> req_tgt (with_sess E (half_view pid (e_sess E))) k us = req_tgt E k us.
+Proof.
+  destruct k as [| | |p| |prov]; try discriminate; intros _; cbn [req_tgt]; try reflexivity.
+  unfold oauth_tgt, oauth_reaches. cbn [with_sess e_sess e_cfg e_O]. unfold half_view.
+  rewrite view_lookup_other by (intro H; vm_compute in H; discriminate H). reflexivity.
+Qed.
+
+Lemma wrap_view_cases E h : wrap_view E h = e_sess E \/ exists pid, wrap_view E h = half_view pid (e_sess E).
+Proof. unfold wrap_view. destruct (h_cpid _) as [pid|]; [right; exists pid; reflexivity|left; reflexivity]. Qed.
+
+Lemma wlock_ops_sess_free_lemma w req O P k :
+  ckind_of cfg req = Some k -> sess_free k = true ->
+  wlock_ops w (AReq req) O P = lock_ops C cfg w (AReq req) O P.
+Proof.
+  intros CK Sf. rewrite wlock_ops_request_lemma, lock_ops_request_lemma, CK.
+  unfold wenv_of, wenv. destruct (wrapped_route (env_of C cfg w req O)); [|reflexivity].
+  destruct (wrap_view_cases (env_of C cfg w req O) (init_hst (w_st w) O)) as [->|(pid & ->)].
+  - rewrite with_sess_same. reflexivity.
+  - rewrite (req_tgt_view _ pid k _ Sf). reflexivity.
+Qed.
+
+(* ... whereas a second-factor validation that arrives with the remember cookie of account pid and no
+   session identity is checked against pid's secret and counted on pid's triple: the wrapper logged
+   pid in (half-authenticated) and TOTP.validate takes the current user *)
+Lemma subject_view E pid key us u :
+  bempty pid = false -> ulookup pid us = Some u ->
+  subject (with_sess E (half_view pid (e_sess E))) key us = Some (pid, u).
+Proof.
+  intros Hb Lu. unfold subject. cbn [with_sess e_sess]. unfold half_view. rewrite aget_uid_overlay, Hb, Lu. reflexivity.
+Qed.
+
+Lemma wlock_ops_totp_remembered_lemma w req O P pid u :
+  o_faults O = [] ->
+  q_route req = RTotpValidate -> q_meth req = POST -> c_totp cfg = true -> c_wrap_remember cfg = true ->
+  let E := env_of C cfg w req O in
+  wrap_pid E (w_st w) = Some pid -> bempty pid = false -> ulookup pid (s_users (w_st w)) = Some u ->
+  wlock_ops w (AReq req) O P =
+  if readable E then (if beqb P pid then verdict_ops E (totp_verdict E u) (blocked E u) else []) else [].
+Proof.
+  intros NF Hr Hm Ht Hw E Wp Hb Lu. rewrite wlock_ops_request_lemma. unfold ckind_of. rewrite Hr, Hm, Ht.
+  rewrite (wenv_of_exact w req O NF). fold E. rewrite Wp.
+  assert (W : wrapped_route E = true).
+  { unfold wrapped_route. cbn [E env_of e_cfg e_req]. rewrite Hw, Hr. reflexivity. }
+  rewrite W. cbn [req_tgt]. unfold totp_tgt.
+  change (readable (with_sess E (half_view pid (e_sess E)))) with (readable E).
+  destruct (readable E); [|reflexivity].
+  rewrite (subject_view E pid k_totp_pending _ u Hb Lu). reflexivity.
+Qed.
+
+(* a password login under the wrapper: what [lock_ops_login_lemma] says, cookie or not *)
+Lemma wlock_ops_login_lemma w req O P :
+  q_route req = RLogin -> q_meth req = POST -> has_mod cfg MAuth = true ->
+  let E := env_of C cfg w req O in
+  let pid := aget (pid_field E) (values E) in
+  wlock_ops w (AReq req) O P =
+  if readable E then
+    match ulookup pid (s_users (w_st w)) with
+    | Some u =>
+        if beqb P pid then
+          (if pwcheck C (u_password u) (aget f_password (values E))
+           then ok_ops E (blocked E u || enrolled E u) else [LFail (o_now O)])
+        else []
+    | None => []
+    end
+  else [].
+Proof.
+  intros Hr Hm Ha. cbv zeta. rewrite (wlock_ops_sess_free_lemma w req O P CLogin).
+  - exact (lock_ops_login_lemma C cfg w req O P Hr Hm Ha).
+  - unfold ckind_of. rewrite Hr, Hm, Ha. reflexivity.
+  - reflexivity.
+Qed.
+
+Theorem wstep_filed_keyed_lemma w a O :
+  filed (w_st w) -> filed (w_st (fst (wstep C cfg w a O))) /\ keyed (w_st (fst (wstep C cfg w a O))).
+Proof. intros Fl. pose proof (wstep_filed_lemma w a O Fl) as F. split; [exact F|exact (filed_keyed _ F)]. Qed.
+
+Lemma wrun_ops_unwrapped_lemma : c_wrap_remember cfg = false ->
+  forall l w P, wrun_ops w l P = run_ops C cfg w l P /\ (wseeds_keep w l <-> seeds_keep C cfg w l) /\
+                wrun C cfg w l = run C cfg w l.
+Proof.
+  intros H. induction l as [|[a O] l IH]; intros w P.
+  - split; [reflexivity|]. split; [reflexivity|reflexivity].
+  - cbn [wrun_ops run_ops wseeds_keep seeds_keep]. rewrite (wstep_unwrapped C cfg w a O H).
+    destruct (IH (fst (step C cfg w a O)) P) as (I1 & I2 & _).
+    rewrite I1, (wlock_ops_unwrapped_lemma w a O P H). split; [reflexivity|]. split; [rewrite I2; reflexivity|].
+    apply wrun_unwrapped. exact H.
+Qed.
+End WStep.
+
+From AB Require Import Spec.C04 Proofs.LockProofs.
+
+Theorem wworld_refines_lemma C cfg l w :
+  NoDup (c_mods cfg) -> has_mod cfg MLock = true -> Forall (fun ao => o_faults (snd ao) = []) l ->
+  filed (w_st w) -> wseeds_keep C cfg w l ->
+  forall P u h0, ulookup P (s_users (w_st w)) = Some u -> ltriple u = lrun (lc_of cfg) l_init h0 ->
+  let H := h0 ++ concat (wrun_ops C cfg w l P) in
+  exists u', ulookup P (s_users (w_st (fst (wrun C cfg w l)))) = Some u' /\
+    ltriple u' = lrun (lc_of cfg) l_init H /\
+    u_attempts u' = streak (lc_of cfg) (rev H) /\
+    u_last u' = last_stamp (lc_of cfg) (rev H) /\
+    u_locked u' = locked_until (lc_of cfg) (rev H) /\
+    (forall t, locked_at (ltriple u') t = true <-> t < locked_until (lc_of cfg) (rev H)).
+Proof.
+  intros ND HM NF Fl Sk P u h0 Lu L0 H.
+  destruct (wrun_applies_machine_lemma C cfg l w ND HM NF Fl Sk P u Lu) as (u' & L' & T').
+  exists u'. split; [exact L'|].
+  assert (TH : ltriple u' = lrun (lc_of cfg) l_init H).
+  { rewrite T', L0. unfold H, lrun. rewrite fold_left_app. reflexivity. }
+  split; [exact TH|].
+  destruct (c04_refines_lemma (lc_of cfg) H) as (R1 & R2 & R3). rewrite <- TH in R1, R2, R3.
+  repeat split; try assumption.
+  - intros Ht. rewrite TH in Ht. apply c04_locked_iff_lemma. exact Ht.
+  - intros Ht. rewrite TH. apply c04_locked_iff_lemma. exact Ht.
+Qed.
+
+(* ---- the hypotheses are satisfiable under the wrapper: a concrete wrapped deployment ------------- *)
+(* auth + lock + remember, module routes behind the global remember wrapper, LockAfter 3 / window
+   300 s / duration 3600 s.  The harness seeds one fresh account together with one remember token
+   and puts the matching cookie into browser "b"; then the history of LockWorld2.v: three wrong
+   passwords, the right one while locked, a manual unlock, the right one.  The first request carries
+   the cookie and no session identity: the wrapper consumes the token and logs the owner in
+   (half-authenticated) before the login handler counts the failure. *)
+Definition ex_wcfg : config :=
+  mkConfig [MAuth; MLock; MRemember] false false false false false false 3 300 3600 3600 3600 [] false false false
+           DELETE GET false [] RespNotFound [] [] false false true.
+Definition ex_raw : bytes := ex_pid ++ ";"%byte :: repeat "n"%byte 32.
+Definition ex_cookie : bytes := b64url_enc ex_raw.
+Definition ex_token : bytes := b64std_enc (sha ex_crypto ex_raw).
+Definition ex_wreq (pw : string) : request :=
+  mkRequest (bs "b") POST RLogin (bs "/login") [] [] [(bs "email", ex_pid); (bs "password", bs pw)] false.
+Definition ex_wstart : world :=
+  fst (wstep ex_crypto ex_wcfg
+         (fst (wstep ex_crypto ex_wcfg empty_world (ASeed ex_user [ex_token]) (ex_oracle 900)))
+         (ASetJar true (bs "b") [(k_rm, ex_cookie)]) (ex_oracle 901)).
+
+Lemma wworld_example_lemma :
+  c_wrap_remember ex_wcfg = true /\
+  NoDup (c_mods ex_wcfg) /\ has_mod ex_wcfg MLock = true /\
+  Forall (fun ao => o_faults (snd ao) = []) ex_history /\
+  filed (w_st ex_wstart) /\ wseeds_keep ex_crypto ex_wcfg ex_wstart ex_history /\
+  ulookup ex_pid (s_users (w_st ex_wstart)) = Some ex_user /\ ltriple ex_user = l_init /\
+  ex_login "wrong" = AReq (ex_wreq "wrong") /\
+  wrapped_route (env_of ex_crypto ex_wcfg ex_wstart (ex_wreq "wrong") (ex_oracle 1000)) = true /\
+  wrap_pid (env_of ex_crypto ex_wcfg ex_wstart (ex_wreq "wrong") (ex_oracle 1000)) (w_st ex_wstart) = Some ex_pid /\
+  concat (wrun_ops ex_crypto ex_wcfg ex_wstart ex_history ex_pid) =
+    [LFail 1000; LFail 1010; LFail 1020; LOkBefore 1030; LUnlock 1040; LOkBefore 1050; LOkAfter 1050] /\
+  bmem ex_token (rmlookup ex_pid (s_rm (w_st (fst (wrun ex_crypto ex_wcfg ex_wstart ex_history))))) = false /\
+  exists u', ulookup ex_pid (s_users (w_st (fst (wrun ex_crypto ex_wcfg ex_wstart ex_history)))) = Some u' /\
+    u_attempts u' = 0 /\ u_last u' = 1050 /\ u_locked u' = 1040 - 3600.
+Proof.
+  assert (WR : c_wrap_remember ex_wcfg = true) by reflexivity.
+  assert (ND : NoDup (c_mods ex_wcfg)).
+  { cbn. repeat constructor; cbn; intuition discriminate. }
+  assert (HM : has_mod ex_wcfg MLock = true) by reflexivity.
+  assert (NF : Forall (fun ao => o_faults (snd ao) = []) ex_history) by (repeat constructor).
+  assert (Fl : filed (w_st ex_wstart)).
+  { apply wstep_filed_lemma. apply wstep_filed_lemma. split; [constructor|intros k u []]. }
+  assert (Sk : wseeds_keep ex_crypto ex_wcfg ex_wstart ex_history)
+    by (cbn [ex_history wseeds_keep seed_keeps ex_login]; tauto).
+  assert (Lu : ulookup ex_pid (s_users (w_st ex_wstart)) = Some ex_user) by (vm_compute; reflexivity).
+  assert (L0 : ltriple ex_user = l_init) by reflexivity.
+  assert (Rq : ex_login "wrong" = AReq (ex_wreq "wrong")) by reflexivity.
+  assert (Wr : wrapped_route (env_of ex_crypto ex_wcfg ex_wstart (ex_wreq "wrong") (ex_oracle 1000)) = true)
+    by reflexivity.
+  assert (Wp : wrap_pid (env_of ex_crypto ex_wcfg ex_wstart (ex_wreq "wrong") (ex_oracle 1000)) (w_st ex_wstart)
+               = Some ex_pid) by (vm_compute; reflexivity).
+  assert (Ops : concat (wrun_ops ex_crypto ex_wcfg ex_wstart ex_history ex_pid) =
+                [LFail 1000; LFail 1010; LFail 1020; LOkBefore 1030; LUnlock 1040; LOkBefore 1050; LOkAfter 1050])
+    by (vm_compute; reflexivity).
+  assert (Tk : bmem ex_token (rmlookup ex_pid (s_rm (w_st (fst (wrun ex_crypto ex_wcfg ex_wstart ex_history))))) = false)
+    by (vm_compute; reflexivity).
+  repeat (split; [assumption|]).
+  destruct (wworld_refines_lemma ex_crypto ex_wcfg ex_history ex_wstart ND HM NF Fl Sk ex_pid ex_user [] Lu L0)
+    as (u' & L' & _ & R1 & R2 & R3 & _).
+  rewrite Ops in R1, R2, R3. cbn [app] in R1, R2, R3.
+  exists u'. split; [exact L'|]. rewrite R1, R2, R3. vm_compute. repeat split; reflexivity.
+Qed.
